@@ -336,15 +336,28 @@ fn ffi_params() -> Params {
 
 /// What the C++ interface can express: a missing package is an empty candidate list and
 /// hints are always an explicit list.
-fn expressible(u: &Universe) -> Universe {
+///
+/// `pad`: for packages whose bit is set, a partial hint list is padded with repetitions of
+/// its entries up to the length of the candidate list (a list with duplicates is a legal
+/// `Vector<SolvableId>`; it hints exactly the solvables it names, however long it is).
+fn expressible(u: &Universe, pad: u16) -> Universe {
     let mut u = u.clone();
-    for pk in u.packages.iter_mut() {
+    for (pi, pk) in u.packages.iter_mut().enumerate() {
         if pk.missing {
             pk.missing = false;
         }
         pk.hint = match &pk.hint {
             Hint::None => Hint::Some(vec![]),
             Hint::All => Hint::Some((0..pk.cands.len()).collect()),
+            Hint::Some(v) if !v.is_empty() && v.len() < pk.cands.len() && (pad >> (pi % 16)) & 1 == 1 => {
+                let mut w = v.clone();
+                let mut k = 0;
+                while w.len() < pk.cands.len() {
+                    w.push(v[k % v.len()]);
+                    k += 1;
+                }
+                Hint::Some(w)
+            }
             h => h.clone(),
         };
     }
@@ -363,7 +376,7 @@ fn eval_solve(tape: &[u16]) -> Report {
         p.p_unknown = 0;
         gen_case(&mut t, &p)
     };
-    let u = Rc::new(expressible(&u0));
+    let u = Rc::new(expressible(&u0, head.get(1).copied().unwrap_or(0)));
     rep.describe = u.describe(&problem);
     // Rust API
     let provider = TableProvider::new(u.clone());
